@@ -10,7 +10,7 @@ import itertools
 
 from vf import ref_header as H
 from vf import ref_sgml
-from vf.core import HarnessError, Tally, deviations
+from vf.core import vacuous, HarnessError, Tally, deviations
 
 LEVEL = "exploration"
 
@@ -224,12 +224,12 @@ def run(ctx):
     if not tally.fails:
         for o in ("v1-ok-one-line+glued", "v1-ok-cr-only+cr-gap", "v1-ok-line-per-field+lf-gap", "v2-ok-one-line", "v2-ok-lines", "tree-ok", "body-cp1252-1252", "body-c1-ISO-8859-1", "body-utf8-NONE"):
             if o not in tally.outcomes:
-                raise HarnessError(f"vacuous: outcome {o} never observed")
+                vacuous(tally, f"vacuous: outcome {o} never observed")
     tally.sample({"v1_file": (H.render_v1(H.v1_fields(102, charset="1252"), seps=[""] * 8, gap="") + BODIES["cp1252"])})
     tally.sample({"v2_file": H.render_v2(H.v2_fields(203), quote="'", standalone=False, br1="", br2="") + BODIES["utf8"]})
     cov = {
-        "evaluations": tally.counts["evaluations"],
-        "distinct_nontrivial": tally.counts["evaluations"] - 1,
+        "evaluations": tally.counts.get("evaluations", 0),
+        "distinct_nontrivial": tally.counts.get("evaluations", 0) - 1,
         "rule": "v1: full product uniform separator {CRLF,LF,CR,none} x blanks after colon {0,1,2} x leading blank lines {0,1,2} x gap "
         "{blank line,none,LF,CRLF,CR,two blank lines} x COMPRESSION present/absent x every (charset, body) pair encodable (6 bodies: ascii, e-acute, "
         "cp1252-only, C1 control, UTF-8 multi-byte, multi-line) with encoding/version/security rotating; all field-value combinations on the standard layout; "
